@@ -184,6 +184,24 @@ def check_quoted_flows(u):
                     raise Unsupported("%s:%d: the result of `.quoted(..)` is not written directly by write!(..) - an escaped name may be escaped again or stored" % (rel, line))
 
 
+def check_no_format_sites(u):
+    """Third syntactic fact: outside Iden::prepare (src/types.rs, under contract) and the raw write! sites of src/backend (each
+    verified), nothing assembles a quoted identifier by hand: no `format!` / `write!` elsewhere under src/ mentions `.left()`."""
+    for p in sorted(glob.glob(os.path.join(u.repo, "src", "**", "*.rs"), recursive=True)):
+        rel = os.path.relpath(p, u.repo)
+        src = u.src(rel)
+        if ".left()" not in src or rel == "src/types.rs":
+            continue
+        code = rl.code_toks(rl.lex(src.split("#[cfg(test)]")[0]))
+        for k, t in enumerate(code):
+            if t.kind == "ident" and t.text in ("format", "write", "writeln", "print", "println") and k + 2 < len(code) and code[k + 1].text == "!" and code[k + 2].text in "([":
+                close = rl.match_close(code, k + 2)
+                inner = src[code[k + 2].end:code[close].start]
+                if ".left()" in inner and not (t.text == "write" and rel.startswith("src/backend/")):
+                    line = src.count("\n", 0, t.start) + 1
+                    raise Unsupported("%s:%d: a quoted identifier is assembled by hand with %s!(.. .left() ..) outside the verified quoting sites" % (rel, line, t.text))
+
+
 def check_prepare_quote_arg(u):
     """Second call-graph fact used by C04 (syntactic, every run): inside the backends every `x.prepare(writer, q)` passes the
     backend's own quote, `self.quote()`, whose value is verified below per backend.  Anything else (a constant quote, another
@@ -213,6 +231,7 @@ def check_prepare_quote_arg(u):
 
 def build(u):
     check_quoted_flows(u)
+    check_no_format_sites(u)
     check_prepare_quote_arg(u)
     u.emit("use vstd::prelude::*;\nverus! {\n")
     u.prelude_file("vlib/prelude/vfmt.rs")
